@@ -12,7 +12,7 @@ extern "C" {
 #endif
 
 enum { VF_MODE_OFF = 0, VF_MODE_DELAY = 1, VF_MODE_BATON = 2 };
-enum { VF_POL_UNIFORM = 0, VF_POL_TARGETED = 1, VF_POL_PCT = 2 };
+enum { VF_POL_UNIFORM = 0, VF_POL_TARGETED = 1, VF_POL_PCT = 2, VF_POL_SCRIPT = 3 };
 
 typedef struct vf_sched_cfg_s {
   int      mode;
@@ -26,6 +26,9 @@ typedef struct vf_sched_cfg_s {
   uint64_t pct_steps;      /* PCT: estimated number of points in the run                          */
   uint64_t step_budget;    /* baton: after this many points the run is released to free-run (inconclusive) */
   const char* hot;         /* comma separated substrings of function names                        */
+  const char* script;      /* script policy: "v:k:t,..." = when managed thread v executes its k-th point (1-based) the baton goes to thread t (if runnable);
+                              "v:k:s" = the k-th weak CAS of thread v fails spuriously.  Otherwise threads run non-preemptively: lowest index first,
+                              after a thread finishes or says it waits the most recently preempted runnable thread continues (else the next index, cyclic) */
 } vf_sched_cfg_t;
 
 extern volatile int vf_mode;
@@ -49,7 +52,11 @@ typedef struct vf_sched_stats_s {
   uint64_t sched_hash;      /* hash over (thread, function) at every switch: identifies the interleaving */
   int      budget_exceeded;
   int      threads_created;
+  int      script_fired;    /* script entries that caused a switch / a spurious failure */
 } vf_sched_stats_t;
+/* points executed so far by managed thread `index` (script policy bookkeeping; -1 if unknown) */
+long vf_thread_points(int index);
+long vf_thread_cas_count(int index);
 void vf_sched_get_stats(vf_sched_stats_t* out);
 /* writes  "func":{"points":n,"switches":m},...  for the busiest functions */
 void vf_sched_dump_funcs(FILE* f, int max_entries);
